@@ -227,15 +227,19 @@ class Result:
             for k, c in v.get("cov", {}).items():
                 self.cov[k] = self.cov.get(k, 0) + c
             seen_eps = set()
-            for x in sorted(v.get("viol", []), key=lambda x: x["line"]):
+            known, _f = load_known()
+            ksigs = {k["sig"] for k in known if k["property"] == self.pid}
+            for x in sorted(v.get("viol", []), key=lambda x: (x["line"], x["rule"])):
                 if not any(x["rule"].startswith(p) for p in prefixes):
                     continue
                 ri = run_of_line(v["trace"], x["line"])
-                # one verdict per connection: later broken rules on the same connection are consequences
+                # one verdict per connection: after the first broken rule that is not a listed finding, later broken
+                # rules on the same connection are consequences (listed findings do not mask what follows them)
                 epk = (ri, x.get("ep"))
                 if epk in seen_eps:
                     continue
-                seen_eps.add(epk)
+                if signature(x) not in ksigs:
+                    seen_eps.add(epk)
                 sc = scripts[ri] if ri < len(scripts) else None
                 self.violations.append((x, sc, v["trace"]))
 
